@@ -121,7 +121,7 @@ PROPS = {
                 assumptions=["governance parameters are constant along a history", "shield-claim proposals (certifier round, then the certified identities' stake round) are exercised by the shield engine; their tally is restated independently by the monitor stake_round_rule with the certified identities' bonded stake as the quorum base"]),
     "C13": dict(GOV, lean=["Shentu.Props.C13", "Shentu.Props.C13H"]),
     "C15": {
-        "lean": ["Shentu.Props.C15"],
+        "lean": ["Shentu.Props.C15", "Shentu.Props.C15H"],
         "engines": [chain("oracle", 160, 1600), EXPORT],
         "trusted": SDK_TRUST,
         "assumptions": ["block heights are consecutive", "the oracle parameters are constant along a history",
